@@ -7,6 +7,7 @@
 import Gnet.Spec.ReactorSpec
 import Gnet.Proofs.ReactorBytes
 import Gnet.Spec.ReactorExample
+import Gnet.Proofs.ReactorRuns
 namespace Gnet.Props.C02
 open Gnet.Reactor
 
@@ -17,6 +18,11 @@ theorem outbound_integrity (s s' : RState) (toks : List Tok) (hn : NamesNodup s)
 
 theorem outbound_init (cfg : Cfg) : InvOut { cfg := cfg } :=
   Proofs.ReactorBytes.outbound_init cfg
+
+/-- the same for whole histories: after ANY number of accepted rounds from the initial state of any configuration -/
+theorem outbound_integrity_all_histories (cfg : Cfg) (rounds : List (List Tok)) (s' : RState)
+    (h : Proofs.ReactorRuns.acceptRounds { cfg := cfg } rounds = .ok s') : InvOut s' :=
+  (Proofs.ReactorRuns.runs_from_init cfg rounds s' h).2.1
 
 /-! Non-vacuity: in the recorded history the OnOpen reply [104, 105] is accepted and handed to the kernel. -/
 example : (Example.after 1).bind Example.bytesView = some [[], [], [104, 105], [104, 105]] := by decide +kernel
